@@ -91,6 +91,13 @@ def temp_owner(p, originals):
         cand = os.path.join(d, nm[:k])
         if cand in originals:
             return cand
+    # a long original name may be shortened to make room for the temporary suffix: the new entry then
+    # shares a long prefix (>= 150 bytes, all but its last <= 40 bytes) with an original of the same directory
+    if len(nm) >= 190:
+        for o in originals:
+            od, onm = os.path.split(o)
+            if od == d and len(onm) >= len(nm) - 40 and onm[:len(nm) - 40] == nm[:len(nm) - 40]:
+                return o
     return None
 
 
